@@ -414,6 +414,7 @@ class Observer:
         self.paused_since = None
         self.cas_seen = 0
         self.errs_seen = 0
+        self.sw_seen = 0
         self.flagged_nojoin = set()
 
     def fail(self, prop, sig, what):
@@ -496,6 +497,11 @@ class Observer:
         for e in new_errs:
             if e['event'].startswith('job') and not label.startswith('dup'):
                 self.fail('C01', 'internal-error-in-job:%s' % e['type'], '%s inside scheduler job on %s: %s' % (e['type'], label, e['msg'][:120]))
+        # C01: a post-commit operation that raised was logged and swallowed = a lost message
+        new_sw = self.d.swallowed[self.sw_seen:]
+        self.sw_seen = len(self.d.swallowed)
+        for e in new_sw:
+            self.fail('C01', 'lost-post-commit-operation:%s' % e['type'], 'post_tx_queue swallowed %s on %s: %s' % (e['type'], label, e['msg'][:120]))
         # C01: declared errors only
         if out == 'internal' and not label.startswith('dup') and not self._dup_shadow(label):
             self.fail('C01', 'internal-error:%s' % label.split('(')[0].split(':')[0], 'non-declared exception on %s: %s' % (
